@@ -34,7 +34,7 @@ type likeCase struct {
 	BufLen     int    `json:"buf_len,omitempty"`
 	// Sub: the filter runs on a frame derived from the column's frame, with far fewer rows than the
 	// column has (distinct) values: "tail" Slice(n-10,n), "mid" Slice(n/2,n/2+8), "sorted-head"
-	// Sort(id desc).Slice(0,9), "filtered" rows with id%13 == 5
+	// Sort(id desc).Slice(0,9), "filtered" rows with id%13 == 5, "sorted-all" Sort(id desc) keeping every row
 	Sub string `json:"sub,omitempty"`
 }
 
@@ -70,6 +70,7 @@ func c18Cells() []string {
 			out = append(out, strings.Repeat("A", k)+tail, strings.Repeat("7", k)+tail)
 		}
 	}
+	out = append(out, "42", "A b", `\d\d`, `\`, `a\`, "x7")
 	c18cells = out
 	return out
 }
@@ -216,6 +217,8 @@ func runLikeCase(c likeCase) *core.Failure {
 			qf = qf.Slice(lim(n/2), lim(n/2+8))
 		case "sorted-head":
 			qf = qf.Sort(qframe.Order{Column: "id", Reverse: true}).Slice(0, lim(9))
+		case "sorted-all":
+			qf = qf.Sort(qframe.Order{Column: "id", Reverse: true}) // every row kept, the index is a permutation
 		default:
 			qf = qf.Filter(qframe.Filter{Column: "id", Comparator: func(x int) bool { return x%13 == 5 }})
 		}
@@ -336,7 +339,9 @@ func c18Patterns() []string {
 		}
 	}
 	rec("", 3)
-	out = append(out, "%aaaaaaaaaa", "aaaaaaaaaaa%", "%AAAA\u00df%", "%bbbbbbbbbbbb%", "aaaaaaaaaaaaaa\u0131", "%a.%", "a|b", "[a", "a*", "%\u212a%", "%k%")
+	out = append(out, "%aaaaaaaaaa", "aaaaaaaaaaa%", "%AAAA\u00df%", "%bbbbbbbbbbbb%", "aaaaaaaaaaaaaa\u0131", "%a.%", "a|b", "[a", "a*", "%\u212a%", "%k%",
+		// patterns whose only regular-expression metacharacter is the backslash
+		`%\d%`, `\d\d`, `A\sb`, `\w`, `%\x41`, `7777\S`, `\\`, `a\`, `%\d\d\d\d\d%`)
 	return out
 }
 
@@ -364,7 +369,7 @@ func c18Run(ctx *core.Ctx) {
 				}
 				if order == "asc" {
 					// the same filter on frames derived from the column's frame (few rows, many values)
-					for _, sub := range []string{"tail", "mid", "sorted-head", "filtered"} {
+					for _, sub := range []string{"tail", "mid", "sorted-head", "filtered", "sorted-all"} {
 						if ctx.Mine() {
 							exec(likeCase{Pattern: p, Cmp: cmp, Order: order, Sub: sub}, "string-sub/"+cmp)
 						}
@@ -444,7 +449,7 @@ func init() {
 		Setup: func() { c18Env() },
 		Level: "model_checking",
 		Rule: "case = (pattern, comparator, column kind, cell order). Cells: ALL strings of length <= 3 over a 13-code-point alphabet (a, A, b, é, É, ß, dotless i U+0131 (upper one byte shorter), long s U+017F, U+0250 (upper one byte longer), C1 control U+0080, Kelvin sign U+212A, '.', '(') plus a^k+c and c+b^k for k = 4..14 (lengths around the matcher's 10-byte buffer), A^k+t and 7^k+t for k = 4..18 and four tails t that change under upper-casing, and one null; " +
-			"patterns: ALL strings of length <= 3 over the alphabet plus '%' (incl. empty, %, %%, regex metacharacters, invalid regex) plus long patterns; comparators like and ilike; as string column (cells in ascending, descending and interleaved length order, because the case-insensitive matcher reuses one buffer across cells) and as enum column in chunks of 255 values (the maximal cardinality), each followed in the same process by a sibling enum column with the same cardinality, first and last value but the middle values rotated, and each also on four frames derived from the column's frame (tail slice, middle slice, sorted head, filtered: 8-20 rows of a column with 255 values); valid and invalid patterns on degenerate columns (no rows, all null, rows already selected by an earlier Or sub-clause, filtered down to nulls); a 17-cell core in all sequences of 3 through ilike and through the zero-alloc ToUpper directly with 4 buffer sizes. " +
+			"patterns: ALL strings of length <= 3 over the alphabet plus '%' (incl. empty, %, %%, regex metacharacters, invalid regex) plus long patterns; comparators like and ilike; as string column (cells in ascending, descending and interleaved length order, because the case-insensitive matcher reuses one buffer across cells) and as enum column in chunks of 255 values (the maximal cardinality), each followed in the same process by a sibling enum column with the same cardinality, first and last value but the middle values rotated, and each also on five frames derived from the column's frame (tail slice, middle slice, sorted head, filtered, all rows sorted in reverse: 8-20 rows of a column with 255 values); valid and invalid patterns on degenerate columns (no rows, all null, rows already selected by an earlier Or sub-clause, filtered down to nulls); a 17-cell core in all sequences of 3 through ilike and through the zero-alloc ToUpper directly with 4 buffer sizes. " +
 			"Oracle: the statement's rules (literal match after trimming one leading/trailing %, strings.ToUpper for ilike, Go regexp anchored per missing % with (?i) for ilike when the pattern has metacharacters, compile error => Err, nulls never match). Every Filter call evaluates ~2700 cells; all cases non-trivial, distinct by content.",
 		Assumptions: []string{
 			"strings.ToUpper and Go's regexp are the reference for Unicode upper-casing and regular expressions",
